@@ -11,12 +11,12 @@ use crate::judge::*;
 use crate::model::{self, Bits};
 use crate::report::{Ctx, Tier};
 use crate::rng::Rng;
-use crate::spec::{build, Spec, Via, VIAS_BASIC};
+use crate::spec::{build, Spec, Via};
 use crate::types::*;
 use crate::with_type;
 
 fn via_for(ty: usize, rng: &mut Rng) -> Via {
-    let v = *rng.pick(&VIAS_BASIC);
+    let v = *rng.pick(&crate::spec::VIAS_ALL);
     match v {
         Via::Spare(_) if TYPE_FIXED_CAP[ty].is_some() => Via::Set,
         Via::Spare(_) => Via::Spare(*rng.pick(&[1usize, 64, 65, 200])),
@@ -454,8 +454,8 @@ fn run_c10(ctx: &mut Ctx) {
         }
         for _ in 0..tier.pick(1, 12, 400) {
             let v = gen::random_bits(n, &mut rng);
-            for v1 in VIAS_BASIC {
-                for v2 in VIAS_BASIC {
+            for v1 in crate::spec::VIAS_ALL {
+                for v2 in crate::spec::VIAS_ALL {
                     for ty in [IDX_BV, IDX_BVD] {
                         let a = Spec::new(ty, v.clone(), v1);
                         let b = Spec::new(ty, v.clone(), v2);
